@@ -619,7 +619,15 @@ func (s *socket) Close(discard bool) {
 	}
 	socket_log.Debug("readyState updated from %s to %s", "open", "closing")
 
-	if length := s.writeBuffer.Len(); length > 0 {
+	// a flush on another goroutine that has taken its batch out of the buffer but has not handed it to the
+	// transport yet leaves the buffer empty for a moment: the buffer can be trusted only while no flush is
+	// under way. (TryLock: Close may be called from a flush listener, which holds the lock.)
+	flushing := !s.flushMu.TryLock()
+	length := s.writeBuffer.Len()
+	if !flushing {
+		s.flushMu.Unlock()
+	}
+	if length > 0 || flushing {
 		socket_log.Debug("there are %d remaining packets in the buffer, waiting for the 'drain' event", length)
 		var once sync.Once
 		closeNow := func(...any) {
